@@ -476,7 +476,25 @@ func genRetainMon(c *ctx) *gen {
 				}
 				p := rawdb.ReadPendingEtxs(db, s.wo.Hash())
 				if p == nil || p.Header.Hash() != s.wo.Hash() || txsView(p.OutboundEtxs) != txsView(s.etxs) {
-					c.fail("retain/rawdb/pending-etxs/object-differs", fmt.Sprintf("entry %d read back after further writes differs", i))
+					why := "not found"
+					if p == nil {
+						// say why: re-do the decoding step by step
+						pe, err := (&types.PendingEtxs{Header: s.wo.ConvertToPEtxView(), OutboundEtxs: s.etxs}).ProtoEncode()
+						if err != nil {
+							why = "ProtoEncode: " + err.Error()
+						} else {
+							pb2, _ := proto.Marshal(pe)
+							pd := new(types.ProtoPendingEtxs)
+							proto.Unmarshal(pb2, pd)
+							if err := new(types.PendingEtxs).ProtoDecode(pd, loc); err != nil {
+								why = "ProtoDecode of its own encoding: " + err.Error()
+							}
+						}
+					}
+					if p != nil {
+						why = fmt.Sprintf("header hash %s vs %s, etxs equal %v", p.Header.Hash().Hex(), s.wo.Hash().Hex(), txsView(p.OutboundEtxs) == txsView(s.etxs))
+					}
+					c.fail("retain/rawdb/pending-etxs/object-differs", fmt.Sprintf("entry %d read back after further writes differs: %s", i, why))
 				}
 			}
 		case "decoded":
